@@ -33,13 +33,25 @@ def vectors(case):
     return list(sx.shape_vectors(case.n, case.shapes))
 
 
+def let_wrap(form, toks, sv):
+    """Children of shape "L" are variables bound by an enclosing `let`: the form is compiled as
+    (let [lv_i INIT_i ...] FORM [lv_i ...]) so that FORM's effects and the variables' values afterwards are observed (a compiled construct must leave user variables alone unless the program assigns them)."""
+    ls = [t for t, s_ in zip(toks, sv) if s_ == "L"]
+    if not ls:
+        return form
+    binds = []
+    for i, l in enumerate(ls):
+        binds += [l, sx.Tok(f"init{i}", "E", line=1)]
+    return sx.E(sx.S("let"), sx.List(binds), form, sx.List(ls))
+
+
 def _work(task):
     name, sv = task
     case = CASES[name]
     t0 = time.time()
     try:
         toks = sx.tokens(sv, **case.tok_kw)
-        form = case.builder(*toks)
+        form = let_wrap(case.builder(*toks), toks, sv)
         out = sx.run_rule(form, scope_ctx=case.scope)
         if not out.ok:
             if sx.is_hy_user_error(out.exc):
@@ -62,7 +74,7 @@ def _work(task):
             for w in ("setv", "setx"):
                 toks2 = sx.tokens(sv, **case.tok_kw)
                 inner = case.builder(*toks2)
-                wform = sx.E(sx.S(w), sx.S("hv_x"), inner)
+                wform = let_wrap(sx.E(sx.S(w), sx.S("hv_x"), inner), toks2, sv)
                 o2 = sx.run_rule(wform, scope_ctx=case.scope)
                 if not o2.ok:
                     continue
